@@ -27,7 +27,48 @@ TRUSTED = [
 ASSUMPTIONS = [
     "storage aliasing (a step-1 slice is a view) and device placement are outside the pure model",
     "payload scalars are opaque: ints and float64 (NaN included) are moved, never computed on",
+    "narrow(dim, start, length) called directly is exercised for windows that fit the axis, for start == 0 with any "
+    "length, for non-positive lengths and for start < 0 (must raise); a window overshooting the axis from start > 0 is "
+    "OUTSIDE the quantifier (narrow is not an IndexSelectType; torch.narrow rejects it, the library does not check and "
+    "MultiEmbeddingTensor then returns a container whose num_rows exceeds its storage) and is never generated",
 ]
+
+# clause of the property statement -> oracle key(s) that judge it / generator kind(s) that exercise it
+CLAUSES = [
+    ("both containers, int and float payloads", "all keys carry the container kind", "kinds mnt|met x int|float (sanity)"),
+    ("integer / slice (+step, out-of-range and negative bounds) / int list / range / int tensor with negatives / mask",
+     "wrong-cells:*, raises:*, no-raise:*", "sel0(k), sel1(k) for the six index kinds (sanity); exhaustive sweep (thorough)"),
+    ("along rows, columns or both", "wrong-cells:*:pair(...)", "op pair with every index-kind combination"),
+    ("single-cell access", "wrong-cell:*", "pair(int,int)"),
+    ("entry points: t[...], t.select(idx, dim), t.index_select(tensor, dim), t.narrow(dim, start, len); dim 0/1/-3/-2",
+     "same keys; selBadDim for dims that must raise", "via getitem|select|index_select, op narrow (sanity)"),
+    ("size(dim) / len / shape / dim() describe the container", "meta:*", "recorded after every successful step"),
+    ("arbitrary chains, through empty results", "any key at step k > 0; through_empty (sanity)", "programs of 1-6 steps"),
+    ("every result is well-formed and usable further", "ill-formed:*, unreadable:*", "wf_report + read_cells on every result"),
+    ("out-of-range integers and non-positive steps raise", "no-raise:*", "malformed stream (30 % of steps)"),
+    ("no selection modifies its source", "source-modified", "snapshot before / after every step; history probes"),
+]
+
+
+def pick_via(rng, ix):
+    """public entry point used for a selection step"""
+    if ix["t"] in ("tensor", "mask") and rng.chance(0.4):
+        return "index_select"          # index_select(index: Tensor, dim) called directly
+    return rng.pick(["getitem", "select"])
+
+
+def narrow_positions(st, n):
+    """positions narrow(dim, start, length) selects from an axis of length n; RefErr where it must raise"""
+    if st["start"] < 0:
+        raise R.RefErr("narrow start < 0")
+    if st["dim"] not in (0, 1, -3, -2):
+        raise R.RefErr("dimension out of range")
+    if st["start"] == 0 and st["len"] >= n:
+        return list(range(n))
+    if st["len"] <= 0:
+        return []
+    assert st["start"] + st["len"] <= n, "generator must not draw an overshooting window"
+    return list(range(st["start"], st["start"] + st["len"]))
 
 
 def gen_case(rng, tier):
@@ -41,9 +82,35 @@ def gen_case(rng, tier):
     for _ in range(L):
         r = rng.random()
         clean = rng.chance(0.7)   # mostly-valid stream; malformed stream separately
+        if r < 0.08:
+            # narrow(dim, start, length) called directly
+            dim = rng.pick([0, 1])
+            n = cur[dim]
+            k = rng.random()
+            if k < 0.6:
+                start = rng.randint(0, n)
+                ln = rng.randint(0, n - start)
+            elif k < 0.75:
+                start, ln = 0, n + rng.randint(0, 3)          # whole axis (returns the container itself)
+            elif k < 0.9:
+                start, ln = rng.randint(0, n + 1), -rng.randint(0, 3)   # non-positive length: empty
+            else:
+                start, ln = -rng.randint(1, 3), rng.randint(0, n)      # asserted: must raise
+            st = {"op": "narrow", "dim": rng.pick([dim, dim - 3]), "start": start, "len": ln}
+            if not clean and rng.chance(0.1):
+                st["dim"] = rng.pick([2, -1, 3, -4])
+            prog.append(st)
+            try:
+                pos = narrow_positions(st, n)
+            except R.RefErr:
+                break
+            if st["dim"] not in (0, 1, -3, -2):
+                break
+            cur = (len(pos), cur[1]) if dim == 0 else (cur[0], len(pos))
+            continue
         if r < 0.45:
             ix = R.gen_index(rng, cur[0], allow_bad=not clean)
-            prog.append({"op": "sel", "dim": rng.pick([0, 0, -3]), "idx": ix, "via": rng.pick(["getitem", "select"])})
+            prog.append({"op": "sel", "dim": rng.pick([0, 0, -3]), "idx": ix, "via": pick_via(rng, ix)})
             dim = 0
             if not clean and rng.chance(0.08):
                 # a dimension _normalize_dim must reject (only reachable through .select)
@@ -51,7 +118,7 @@ def gen_case(rng, tier):
                 break
         elif r < 0.8:
             ix = R.gen_index(rng, cur[1], allow_bad=not clean)
-            prog.append({"op": "sel", "dim": rng.pick([1, 1, -2]), "idx": ix, "via": rng.pick(["getitem", "select"])})
+            prog.append({"op": "sel", "dim": rng.pick([1, 1, -2]), "idx": ix, "via": pick_via(rng, ix)})
             dim = 1
         else:
             i = R.gen_index(rng, cur[0], allow_bad=not clean)
@@ -139,12 +206,39 @@ def generate(rng, tier):
 def apply_step(t, st):
     if st["op"] == "pair":
         return t[R.to_py_index(st["i"]), R.to_py_index(st["j"])]
+    if st["op"] == "narrow":
+        return t.narrow(st["dim"], st["start"], st["len"])
     ix = R.to_py_index(st["idx"])
     if st["via"] == "select":
         return t.select(ix, st["dim"])
+    if st["via"] == "index_select":
+        return t.index_select(ix, st["dim"])
     if st["dim"] in (0, -3):
         return t[ix]
     return t[:, ix]
+
+
+def observe_meta(t):
+    """size(dim) for every legal dim, len, shape, dim(); size of the ragged axis must raise"""
+    m = {}
+    try:
+        m["sizes"] = [t.size(0), t.size(1), t.size(-3), t.size(-2)]
+        m["len"] = len(t)
+        m["shape"] = list(t.shape)
+        m["ndim"] = t.dim()
+    except Exception as ex:
+        m["exc"] = C.exc_name(ex)
+    bad = []
+    for d in (2, -1, 3, -4):
+        try:
+            t.size(d)
+            bad.append(d)
+        except IndexError:
+            pass
+        except Exception as ex:
+            bad.append(f"{d}:{C.exc_name(ex)}")
+    m["size_accepts"] = bad
+    return m
 
 
 def run(case):
@@ -166,6 +260,7 @@ def run(case):
             steps.append(rec)
             break
         rec["nr"], rec["nc"] = r.num_rows, r.num_cols
+        rec["meta"] = observe_meta(r)
         rec["wf"] = R.wf_report(r)
         try:
             rec["cells"] = R.read_cells(r)
@@ -192,6 +287,10 @@ def ref_run(case):
                     break
                 state = R.ref_select(state, i, 0)
                 state = R.ref_select(state, j, 1)
+            elif st["op"] == "narrow":
+                ax = 0 if st["dim"] in (0, -3) else 1
+                pos = narrow_positions(st, state[ax] if st["dim"] in (0, 1, -3, -2) else 0)
+                state = R.ref_select(state, {"t": "list", "l": pos}, ax)
             else:
                 if st["dim"] not in (0, 1, -3, -2):
                     raise R.RefErr("dimension out of range")
@@ -206,6 +305,8 @@ def ref_run(case):
 def step_kind(st):
     if st["op"] == "pair":
         return f"pair({st['i']['t']},{st['j']['t']})"
+    if st["op"] == "narrow":
+        return "narrowBadDim" if st["dim"] not in (0, 1, -3, -2) else f"narrow{0 if st['dim'] in (0, -3) else 1}"
     if st["dim"] not in (0, 1, -3, -2):
         return f"selBadDim({st['idx']['t']})"
     return f"sel{0 if st['dim'] in (0, -3) else 1}({st['idx']['t']})"
@@ -235,6 +336,13 @@ def oracle(case, obs):
                 return dict(key=f"wrong-cell:{case['kind']}", what=f"step {k} single-cell access returned wrong data",
                             expected=r, observed=g)
             continue
+        mt = g.get("meta")
+        if mt is not None:
+            want = {"sizes": [r["nr"], r["nc"], r["nr"], r["nc"]], "len": r["nr"], "shape": [r["nr"], r["nc"], -1],
+                    "ndim": 3, "size_accepts": []}
+            if "exc" in mt or any(mt.get(kk) != vv for kk, vv in want.items()):
+                return dict(key=f"meta:{case['kind']}", what=f"step {k} {kind}: size()/len()/shape/dim() of the result "
+                            f"are {mt}, expected {want}", expected=r, observed=g)
         if g.get("wf"):
             return dict(key=f"ill-formed:{case['kind']}:{kind}", what=f"step {k} {kind} result is ill-formed: {g['wf']}",
                         expected=r, observed=g)
@@ -294,6 +402,13 @@ def stats(cases, obss):
         for st in c["prog"]:
             k = step_kind(st)
             d["index_kinds"][k] = d["index_kinds"].get(k, 0) + 1
+            v = st.get("via", st["op"])
+            d.setdefault("entry_points", {})
+            d["entry_points"][v] = d["entry_points"].get(v, 0) + 1
+            if st["op"] == "sel":
+                dk = f"dim={st['dim']}"
+                d.setdefault("dims", {})
+                d["dims"][dk] = d["dims"].get(dk, 0) + 1
         steps = o.get("steps", [])
         if any(st.get("probes") for st in c["prog"]):
             d["with_history_probes"] = d.get("with_history_probes", 0) + 1
@@ -308,7 +423,9 @@ def stats(cases, obss):
 def coq_step(st):
     if st["op"] == "pair":
         return f"SPair {R.coq_index(st['i'])} {R.coq_index(st['j'])}"
-    if st["via"] == "select":      # .select(idx, dim) receives the raw dim: the model normalises it itself
+    if st["op"] == "narrow":
+        return f"SNarrow {C.cz(st['dim'])} {C.cz(st['start'])} {C.cz(st['len'])}"
+    if st["via"] in ("select", "index_select"):      # .select(idx, dim) receives the raw dim: the model normalises it itself
         return f"SSelZ {C.cz(st['dim'])} {R.coq_index(st['idx'])}"
     d = 0 if st["dim"] in (0, -3) else 1   # t[idx] / t[:, idx]: the axis is fixed by the syntax
     return f"SSel {d}%nat {R.coq_index(st['idx'])}"
@@ -333,7 +450,7 @@ def coq_term(case, obs):
     sels = []
     for st in case["prog"]:
         if st["op"] != "sel" or st["dim"] not in (0, 1, -3, -2):
-            break
+            break        # canon_* follows plain selections; narrow / pair steps are covered by the observation term
         sels.append(f"({0 if st['dim'] in (0, -3) else 1}%nat, {R.coq_index(st['idx'])})")
     canon = "canon_mnt" if case["kind"] == "mnt" else "canon_met"
     return f"({term} && {canon} {R.coq_cells(case['cells'])} {C.clist(sels)})"
@@ -349,6 +466,15 @@ def sanity(cases, obss):
         for k in ("int", "slice", "list", "range", "tensor", "mask"):
             if d["index_kinds"].get(f"sel{ax}({k})", 0) == 0:
                 probs.append(f"index kind sel{ax}({k}) never drawn")
+    for v in ("getitem", "select", "index_select", "narrow", "pair"):
+        if d.get("entry_points", {}).get(v, 0) == 0:
+            probs.append(f"entry point {v} never drawn")
+    for dk in ("dim=0", "dim=1", "dim=-3", "dim=-2"):
+        if d.get("dims", {}).get(dk, 0) == 0:
+            probs.append(f"{dk} never drawn")
+    for ax in (0, 1):
+        if d["index_kinds"].get(f"narrow{ax}", 0) == 0:
+            probs.append(f"narrow along axis {ax} never drawn")
     if not any(k.startswith("pair(") for k in d["index_kinds"]):
         probs.append("pair access never drawn")
     if d["through_empty"] == 0:
